@@ -170,6 +170,27 @@ let dispatch cmd a =
   | "stats_of" -> (* fmt psize assoc(scales/offsets) xrecs *)
     let st = stats_of ap (zi 0) (assoc_of_tok a.(2)) (recs_of_tok (int_of_string a.(1)) a.(3)) in
     String.concat " " [string_of_z st.s_count; tok_of_zlist st.s_max; tok_of_zlist st.s_min; tok_of_zlist st.s_ret]
+  | "hrun" -> (* v.maj v.min fmt ops... : ops N<v|-><f|-> V<maj.min> F<f> B<maj.min>:<f> C<f|->:<v|-> W ; prints state after each op and ok/err *)
+    let ver t = match String.split_on_char '.' t with [x; y] -> (z_of_string x, z_of_string y) | _ -> failwith "version" in
+    let optv t = if t = "-" then None else Some (ver t) in
+    let optf t = if t = "-" then None else Some (z_of_string t) in
+    let parse t = let body = String.sub t 1 (String.length t - 1) in
+      match t.[0] with
+      | 'N' -> (match String.split_on_char ':' body with [v; f] -> HNew (optv v, optf f) | _ -> failwith "N")
+      | 'V' -> HSetVersion (ver body)
+      | 'F' -> HSetFormat (z_of_string body)
+      | 'B' -> (match String.split_on_char ':' body with [v; f] -> HSetBoth (ver v, z_of_string f) | _ -> failwith "B")
+      | 'C' -> (match String.split_on_char ':' body with [f; v] -> HConvert (optf f, optv v) | _ -> failwith "C")
+      | _ -> HOpenWriter in
+    let s0 = { hs_v = (zi 0, zi 1); hs_f = zi 2 } in
+    let (_, outs) = List.fold_left (fun (s, acc) t ->
+        match hstep s (parse t) with
+        | Ok s' -> (s', acc @ ["ok:" ^ string_of_z (fst s'.hs_v) ^ "." ^ string_of_z (snd s'.hs_v) ^ ":" ^ string_of_z s'.hs_f])
+        | Err e -> (s, acc @ ["err:" ^ err_name e])) (s0, []) (Array.to_list (Array.sub a 3 (Array.length a - 3))) in
+    String.concat " " outs
+  | "yday" -> if valid_date (zi 0) (zi 1) (zi 2) then string_of_z (yday (zi 0) (zi 1) (zi 2)) else "invalid"
+  | "of_yday" -> (match of_yday (zi 0) (zi 1) with
+                  | Some ((y, m), d) -> string_of_z y ^ "-" ^ string_of_z m ^ "-" ^ string_of_z d | None -> "none")
   | _ -> "unknown-command " ^ cmd
 
 let () =
